@@ -183,6 +183,8 @@ struct unpack_einsum_tuple {
     }
 };
 
+// einsum_helper only exists when operation minimisation is available (opmin_meta.h)
+#ifndef FASTOR_DONT_PERFORM_OP_MIN
 template<class Index_I, class Index_J, class ... Index_Ks>
 struct unpack_einsum_helper_tuple {
 
@@ -198,6 +200,7 @@ struct unpack_einsum_helper_tuple {
         return apply(t, std_ext::make_index_sequence<size>{});
     }
 };
+#endif
 } // internal
 //-------------------------------------------------------------------------------------------------
 
